@@ -50,6 +50,10 @@ def prod_model_agreement(ctx):
         return res
     what = {"1": "start state", "2": "number of states", "3": "transition table", "4": "accepting/terminal/tags"}
     for nm, c in zip(names, codes):
+        if c == "10":
+            res["notes"].append("production %s: the model's DFA equals the production DFA up to the numbering of states "
+                                "(the discovery order of the code differs from the model's; not a violation)" % nm)
+            continue
         if c != "0":
             res["violations"].append({"kind": "broken-correspondence",
                                       "what": "the model of NFA::compile run on the production %s NFA does not reproduce the production DFA (%s; code %s)" % (nm, what.get(c, "model panic/fuel"), c),
@@ -75,7 +79,7 @@ PROP = {'gen': [],
  'pre_coq': [_dfa.pre_coq, _c15prod.pre_coq],
  'extra': [prod_model_agreement],
  'coq_props': ['theories/Props/C15.vo'],
- 'coq_corr': ['theories/Corr/C15Corr.vo', 'theories/Corr/C15Prod.vo'],
+ 'coq_corr': ['theories/Corr/C15Corr.vo', 'theories/Corr/C15Prod.vo', 'theories/Corr/C15All.vo'],
  'coq_props_more': [{'target': 'theories/Props/C15Prod.vo', 'file': 'theories/Props/C15Prod.v', 'module': 'Props.C15Prod'}],
  'props_file': 'theories/Props/C15.v',
  'props_module': 'Props.C15',
@@ -83,7 +87,8 @@ PROP = {'gen': [],
                'the Debug output, DFA enumerated through start/transition/info, acceptance/terminal/tags after every short string)',
  'level_text': 'Coq theorems over an executable model of the NFA combinators, NFA::compile and DFA stepping (src/automata.rs): for '
                'every expression (arbitrary nesting) and every byte string, the built NFA has an accepting path iff the expression '
-               'matches (C15_build); for every NFA whose edge lists are maps, compile terminates without panic and the DFA, stepped '
+               'matches (C15_build); for every NFA whose edge lists are maps, compile terminates without panic (C15_compile_total: for NFAs that are also well formed, `wf n`: start, stop and every edge '
+               'target exist) and the DFA, stepped '
                'through any byte string without panic, reports a dead transition exactly when no NFA state is reachable, is accepting '
                'iff the stop state is reachable, carries exactly the tags of the reachable tagged states and is terminal only if no '
                'byte has a transition (C15_compile, C15_compile_total); hence DFA::matches = expression matches (C15_main, '
